@@ -50,6 +50,43 @@ CLAIMS = {
   text="Lean 4 theorem cfg_is_path_conjunction (DDV.Props.C18): for every object tree the depth-tracked stack walk of propagate_cfg (modelled with its stack and lazy pops) never fails and equals the tree recursion in which every object, field-set and field enum is gated by its own cfg combined with the cfgs of its enclosing blocks and nothing else; proved with a stack invariant by mutual structural induction. The check first reported the genuine defect F10 (one pop per depth decrease), repaired by a fix: commit in /repo; the theorem is now the full statement. Differential correspondence and an atom-set oracle over trees built so that objects follow closed nested blocks at every depth.",
   note=COMMON_NOTE,
   technique="Lean 4 proof (refinement of the stack walk to the tree recursion) + differential correspondence + independent oracle", ref="3.18"),
+
+ "C04": dict(
+  text="Lean 4 theorems (DDV.Props.C04) over the semantics of the emitted accessors (DDV.Gen.AddrSem, tied to the real output by tabulating it in the driver and comparing with the arithmetic read off the generated tokens): accessor_address (base + ADDRESS (+|-) index*|STRIDE| = base + address + index*stride in the integers, negative strides included), address_formula (any chain of accessor calls yields the sum of offset + index*stride over the chain, by induction on the chain), invalid_index_panics_first / chain_defined_iff (an index >= count yields no address and hence no operation object), operation_passes_address_verbatim (from C05), read_all_reports_bus_address_root; the full statement for read_all_registers in non-root blocks is kept (ReadAllReportsBusAddress), proved false by read_all_counterexample and replaced by read_all_reports_relative_address (finding F2). Correspondence: facts of whole devices vs the model; an independent oracle recomputes every instance address from the definition and compares it with the emitted arithmetic and, in a compiled probe driven by recording mocks, with the address the real interface receives for zero / max / random / first-invalid index tuples.",
+  note=COMMON_NOTE + " rustc / the compiled probe cover only the sampled index tuples; the chain theorem covers all.",
+  technique="Lean 4 proof (address arithmetic, induction over accessor chains) + differential correspondence + compiled probe with recording mocks", ref="3.4"),
+ "C06": dict(
+  text="Lean 4 theorems (DDV.Props.C06): getter_implements_declared_layout / setter_implements_declared_layout compose the generator model with C01: for every register that passed range validation and every content of its byte array, the emitted load/store call reads / writes exactly the documented set-bits of the declared range under the effective orders and leaves every other bit alone; carrier_is_smallest_fit (decided over all widths 0..128), carrier_signedness, range_forms (both front ends), effective_byte_order, names_are_normalised; accessor names go through a separate oracle (finding F4). Correspondence: facts of generated field sets in all four syntaxes vs the model, an oracle written from the property text, and a compiled probe comparing getters / setters on chosen bytes with the Lean codec model.",
+  note=COMMON_NOTE + " convert_case is opaque: naming is checked against the real crate's output per case, not proved.",
+  technique="Lean 4 proof (composition of generator model with the codec theorems) + differential correspondence + compiled probe", ref="3.6"),
+ "C12": dict(
+  text="Lean 4 theorems (DDV.Props.C12): collision_reject_iff (the pairwise scan rejects iff some two distinct positions of the expanded instance list have the same kind and address and do not both allow overlap; the error carries both display names and the shared address), no_collision_iff, reported_pair_collides, kinds_never_collide; the expansion itself (every object x own index x enclosing block indices, refs at their own address) is validated against an independent brute-force oracle over trees built so that collisions are frequent, and its arithmetic is the AddrSem of C04. The check first reported the genuine defect F5 (override flag dropped), repaired by a fix: commit.",
+  note=COMMON_NOTE + " The instance expansion is modelled (fuel-bounded recursion through by-name block lookup) and validated, not proved equal to a declarative instance set.",
+  technique="Lean 4 proof (soundness and completeness of the pairwise scan) + differential correspondence + brute-force oracle", ref="3.12"),
+ "C13": dict(
+  text="Lean 4 obligations (DDV.Props.C13): the Integer::{min,max}_value table re-extracted from the source equals the two's-complement ranges of the model; the bound checks and the min/max analysis are modelled literally, including their i64 overflow panics. The full statement (every reachable address fits, no overflow on the way) is false of the current tree in five recorded ways (F6a enclosing block repeats, F6b block-ref children, F6c product overflow in the internal type, F15 negative literal in an unsigned internal type, F16 i64 overflow panics), each with a class predicate in known_findings.json; outside those classes the exact oracle (all instances, and the emitted arithmetic evaluated in the internal type) and the compiled probe with overflow checks find no misfit. The reachability theorem for the analysed fragment is still to be added.",
+  note=COMMON_NOTE + " For this property the Lean side currently carries table obligations and the model; the for-all claim rests on the oracle over generated trees (partial).",
+  technique="Lean 4 obligations over extracted tables + exact address oracle + differential correspondence + compiled probe (partial: analysis incomplete, five recorded findings)", ref="3.13"),
+ "C14": dict(
+  text="Lean 4 theorems (DDV.Props.C14): refs_accept_iff (refs_validated accepts iff every block / register / command ref targets an existing object of the kind its override states; rejection is a reported error with two names, never a panic), ref_resolves_anywhere (with distinct names the depth-first lookup finds exactly the object of that name wherever it is declared), ref_to_buffer_or_ref_rejected and override_layout_keys_rejected (both front ends), device_name_check, and the pass-order obligation re-extracted from run_passes (refs validated before anything dereferences them — the order was wrong on the original tree: finding F7, repaired by a fix: commit). Name uniqueness is validated by correspondence and an oracle using the real convert_case result per case.",
+  note=COMMON_NOTE + " cfg-free definitions; convert_case opaque.",
+  technique="Lean 4 proof (ref validation iff, lookup uniqueness, front-end rejections, extracted pass order) + differential correspondence + independent oracle", ref="3.14"),
+ "C16": dict(
+  text="Lean 4 theorem front_ends_agree (DDV.Props.C16): on every abstract definition of the common fragment (no single-address form on non-bools, enum docs = field docs, reset integers below 2^63, no layout keys in overrides) the DSL lowering and the manifest lowering — two separately transcribed functions — return the same MIR or the same rejection, by mutual induction over the object tree; same_driver lifts it through transform_mir. The check first reported the genuine defect F9 (four global defaults ignored by manifests), repaired by a fix: commit. Correspondence: every definition is rendered as DSL, JSON, YAML and TOML; MIR Debug trees, decisions and token streams are compared across the four and with the model.",
+  note=COMMON_NOTE + " The concrete parsers are exercised through rendered text, not modelled; per-syntax integer ranges (TOML/YAML i64, JSON u64, DSL u128) are modelled.",
+  technique="Lean 4 proof (equality of the two front-end lowerings on the common fragment) + four-way differential run", ref="3.16"),
+ "C17": dict(
+  text="Lean 4 theorems (DDV.Props.C17) over a table regenerated from the source on every run (marker types, ReadCapability / WriteCapability impls, the capability bounds of every public operation and embedded-io trait impl): operation_available_iff (decide over 5 markers x 24 operations: read ops iff readable, write ops iff writable, modify iff both), rc_co_offer_nothing, every_operation_classified / every_listed_operation_exists; field_getter_setter_iff and effective_register_access over the generator model. Correspondence: access markers and getter / setter presence in generated facts at global / object / ref-override / field level.",
+  note=COMMON_NOTE + " Trait resolution itself is rustc's; the table translator (tools/extract.py, regex based) is trusted.",
+  technique="Lean 4 proof by decide over a table extracted from source + differential correspondence", ref="3.17"),
+ "C19": dict(
+  text="No formal Rust type system is available, so this is decided in two layers. Proved in Lean (DDV.Props.C19): necessary well-formedness facts of the emitted items — accessors refer to field-set types that are emitted under exactly that name, command accessors use the unit type exactly for absent field lists, discriminants of accepted cfg-free enums are pairwise distinct, Debug impls only call getters that exist when all fields are readable (the full statement is false: finding F11). Checked by execution: every accepted cfg-free definition of the documented language the harness generates is compiled with rustc (#![no_std], against /repo/device-driver); accessor existence is checked on the facts. The check reported the genuine defect F17 (negative stride literal in read_all_registers), repaired by a fix: commit, and records F11, F13, F15.",
+  note=COMMON_NOTE + " rustc is the oracle for sufficiency; the proved judgement is a necessary condition only (residue: Rust's type rules).",
+  technique="Lean 4 proof of necessary conditions + rustc as oracle on generated drivers (translation-validation style)", ref="3.19"),
+ "C20": dict(
+  text="Lean 4 theorems (DDV.Props.C20): no_hash_iteration_sites (the list of places where the generator iterates a HashMap/HashSet, re-extracted from the source on every run, is empty — the model of the generator has no iteration-order parameter left), and over a model of the two shells (DDV.Gen.Shell): cli_output_is_pretty_lib_output, cli_nonzero_iff_lib_error, cli_early_failure_is_nonzero, macro_expansion_eq_lib_output, extension_selects_parser. The check first reported the genuine defect F12 (error message depended on the hash seed), repaired by a fix: commit. Correspondence: the same accepted and rejected inputs in several fresh processes compared byte for byte; the CLI binary built from /repo/cli on four extensions x file/stdout vs prettyplease(library output) and exit status; create_device! (inline DSL, absolute and relative manifest paths) vs library output in a compiled probe driven by recording mocks.",
+  note=COMMON_NOTE + " prettyplease, clap, the OS and proc-macro expansion are exercised, not modelled; the shell model is hand-written.",
+  technique="Lean 4 proof (extracted hash-iteration table, shell model) + multi-process determinism run + CLI / macro differential", ref="3.20"),
 }
 
 NOT_YET = {
